@@ -31,6 +31,13 @@ REVIEWED_INDEX = {
 }
 
 
+# reads that the path-insensitive part of the definite-assignment analysis cannot discharge: (function, local) -> why the path is infeasible
+REVIEWED_UNBOUND = {
+    ("FunctionDefinition._render_argument_set", "args_str"): "empty-formals arm: `inline_ok` is still true after the comment loop exactly when the "
+    "comment-only form was assigned; otherwise `not inline_ok` holds and one of the two following arms assigns",
+}
+
+
 def nesting_field(prog: Program, cname: str, field: str) -> bool:
     """can this field hold an arbitrary (nestable) expression?"""
     ann = prog.fields(cname).get(field)
@@ -218,6 +225,30 @@ def run(prog: Program) -> Results:
                 res.add("R-C20-4", (k, "unguarded index", pat), prog.funcs[k].loc(n),
                         f"{k}: `{norm(n)[:60]}` is evaluated on a path where nothing establishes that the sequence is long enough: "
                         f"an input that leaves it short raises IndexError out of parse/rebuild")
+    # ---------------------------------------------------------------- R-C20-5 definite assignment
+    from sa.defassign import maybe_unbound
+    r5 = res.rule("R-C20-5", "no implicit UnboundLocalError: every read of a local in the parse/rebuild closure is preceded by an "
+                  "assignment on every control-flow path (exception edges included; two tests of the same condition are correlated)",
+                  floor=150)
+    for k in sorted(closure):
+        f = prog.funcs[k]
+        if f.module.startswith(skip_mod) or f.name in ("__repr__", "__eq__"):
+            continue
+        r5.instances += 1
+        try:
+            bad = maybe_unbound(f)
+        except RecursionError:  # pragma: no cover
+            res.unclass(f"{k}: definite-assignment analysis did not terminate")
+            continue
+        names = sorted({x.id for x, _ in bad})
+        names = [n_ for n_ in names if (k, n_) not in REVIEWED_UNBOUND]
+        r5.ob(not names, None if not names else {"site": k, "maybe_unassigned": names})
+        for n_ in names:
+            x = next(x for x, _ in bad if x.id == n_)
+            res.add("R-C20-5", (k, "local may be read before assignment", n_), f.loc(x),
+                    f"{k}: `{n_}` is read at line {x.lineno} on a path on which no assignment to it has run: that input raises "
+                    f"UnboundLocalError (an internal error, not ValueError) out of parse/rebuild")
+    res.tables.append(f"sa/rules/c20.py:REVIEWED_UNBOUND ({len(REVIEWED_UNBOUND)} infeasible paths)")
     res.tables.append(f"sa/rules/c20.py:REVIEWED_INDEX ({len(REVIEWED_INDEX)} grammar-shape entries)")
     res.tables.append(f"sa/rules/c20.py:REVIEWED_RAISES ({len(REVIEWED_RAISES)} entries)")
     res.assumptions = ["absence of implicit IndexError/AttributeError/TypeError on arbitrary text is not decided (needs value ranges)",
